@@ -3,6 +3,7 @@ package props
 import (
 	"fmt"
 	"math"
+	"os"
 	"path/filepath"
 	"strings"
 
@@ -508,6 +509,9 @@ func c09CheckDataset(c *ev.Ctx, r *ev.Rand, ds *hdf5.Dataset, dims, chunk []uint
 			}
 		}
 		for i, n := range covered {
+			if n == 0 && strings.Contains(layoutTag, "missing-chunk") && full[i] == 0 {
+				continue // the element of a chunk that is not stored: no piece, fill value in the full read
+			}
 			if n != 1 {
 				c.Violation("iterator:tiling:"+layoutTag+":"+rankTag, wit(c09Sel{Kind: "iterator"}, fmt.Sprintf("element %d covered %d times by %d chunks", i, n, nchunks)))
 				break
@@ -559,6 +563,27 @@ func sameMultiset(a, b []float64) bool {
 		}
 	}
 	return true
+}
+
+// c09DropLastChunk removes the last entry of the (single) chunk index leaf of a file that holds
+// one chunked dataset: version 1 B-tree node, type 1, level 0, "entries used" reduced by one.
+func c09DropLastChunk(path string) bool {
+	b, err := os.ReadFile(path)
+	if err != nil {
+		return false
+	}
+	for i := 0; i+8 <= len(b); i++ {
+		if b[i] == 'T' && b[i+1] == 'R' && b[i+2] == 'E' && b[i+3] == 'E' && b[i+4] == 1 && b[i+5] == 0 {
+			n := int(b[i+6]) | int(b[i+7])<<8
+			if n < 2 {
+				return false
+			}
+			n--
+			b[i+6], b[i+7] = byte(n), byte(n>>8)
+			return os.WriteFile(path, b, 0o644) == nil
+		}
+	}
+	return false
 }
 
 func c09LibCases(tier string) int {
@@ -624,6 +649,15 @@ func c09Run(c *ev.Ctx) {
 		if len(e.Res) == 0 || !e.Res[0].OK() {
 			c.Count("library_dataset_not_written", 1)
 			return
+		}
+		if op.Chunk != nil && r.Chance(1, 3) {
+			// a chunk that was never written (as in files other writers leave partially filled):
+			// the last entry of the chunk index leaf is dropped, the reader must treat the chunk
+			// as fill values in every kind of read
+			if c09DropLastChunk(path) {
+				layoutTag += "+missing-chunk"
+				c.Count("datasets:library:with_a_chunk_that_is_not_stored", 1)
+			}
 		}
 		f, err := hdf5.Open(path)
 		if err != nil {
@@ -699,7 +733,7 @@ func c09Run(c *ev.Ctx) {
 var C09 = &ev.Property{
 	ID:    "C09",
 	Level: "exploration",
-	Rule: "datasets: (1) library-written, rank 1-4, extents 1-12 per axis (one in ten of rank 2-3 with 17-60 / 17-22 elements per axis in chunks of 1-3 / 1, i.e. grids of more than sixteen chunks along every axis; one in twelve with a last axis of 20 000-50 000 elements; on those, selections with blocks of 1-3 separated by gaps of 8189..8200 and 16383..16390 elements are enumerated), contiguous / chunked (whole, non-dividing, many chunks, chunk of one, random) / filtered, six numeric kinds, superblock 0/2/3; (2) every dataset of the reference corpus whose full Read succeeds (incl. compact, big-endian, filtered). Per dataset: full extent, first element, last element, half along each axis, a selection straddling a chunk boundary in every axis, and seeded random selections with stride>1 and block>1 (30 quick / 120 thorough for library datasets, 12 / 40 for corpus datasets) are read with ReadHyperslab (and ReadSlice where applicable) and compared element-wise with the coordinates picked from the full Read in row-major selection order; seven kinds of invalid selections (start>=dim, start+count>dim, overflow near 2^64, zero count, stride past the end, rank mismatch, stride overflow) must be rejected; the chunk iterator must visit each stored chunk once and its pieces must tile the full read. " +
+	Rule: "datasets: (1) library-written, rank 1-4, extents 1-12 per axis (one in ten of rank 2-3 with 17-60 / 17-22 elements per axis in chunks of 1-3 / 1, i.e. grids of more than sixteen chunks along every axis; one in twelve with a last axis of 20 000-50 000 elements; on those, selections with blocks of 1-3 separated by gaps of 8189..8200 and 16383..16390 elements are enumerated), contiguous / chunked (whole, non-dividing, many chunks, chunk of one, random) / filtered, six numeric kinds, superblock 0/2/3; (2) every dataset of the reference corpus whose full Read succeeds (incl. compact, big-endian, filtered). Per dataset: full extent, first element, last element, half along each axis, a selection straddling a chunk boundary in every axis, and seeded random selections with stride>1 and block>1 (30 quick / 120 thorough for library datasets, 12 / 40 for corpus datasets) are read with ReadHyperslab (and ReadSlice where applicable) and compared element-wise with the coordinates picked from the full Read in row-major selection order; seven kinds of invalid selections (start>=dim, start+count>dim, overflow near 2^64, zero count, stride past the end, rank mismatch, stride overflow) must be rejected; the chunk iterator must visit each stored chunk once and its pieces must tile the full read; in a third of the chunked library datasets the last chunk of the index is removed from the file (a chunk that was never written): its elements are fill values in every kind of read and have no piece. " +
 		"distinct = dataset descriptor (layout, dims, chunk, type) or corpus dataset path; every dataset with a successful full read is non-trivial.",
 	Assumptions: []string{
 		"the dataset's own full Read is the reference (its correctness is decided by C01/C06)",
